@@ -7,7 +7,6 @@ import Heathcliff.Proofs.GenApp
 namespace HC
 open HC.MM HC.GenApp
 
-theorem ga_ok_bind {α β : Type} (a : α) (f : α → R β) : ((Except.ok a : R α) >>= f) = f a := rfl
 
 /-- generated state `(best, best_b, best_h, best_w, best_ci, best_co)` of the model's `CBest` -/
 def ga_ofCBest (s : CBest) : Nat × Nat × Nat × Nat × Nat × Nat := (s.c, s.b, s.h, s.w, s.ci, s.co)
